@@ -54,6 +54,8 @@ def main():
         # 4. correspondence + property-level tests
         try:
             mod.run(ctx)
+            import tmirror
+            tmirror.run(ctx)
         except (common.Infra, SystemExit):
             raise
         except Exception as e:
